@@ -7,9 +7,9 @@
 set -u
 ID=$1; N=$2; shift 2
 CHECKS=${*:-$ID}
-WT=/tmp/wt-$ID
+WT=${WT:-/tmp/wt-$ID}
 export GOFLAGS=-mod=mod GOPROXY=off GOSUMDB=off GOTOOLCHAIN=local
-OUT=/verif/seeded/$ID-$N
+OUT=/verif/seeded/$ID-${SN:-$N}
 mkdir -p "$OUT"
 cd "$WT" || exit 2
 git checkout -q -- . ; git clean -fdq -e out
@@ -31,15 +31,19 @@ rundemo() {
 git apply "$P" || { echo "patch does not apply in worktree"; exit 2; }
 BUILD=ok; go build ./... >/dev/null 2>&1 || BUILD=FAILED
 TESTS=$(go test -vet=off -count=1 $(go list ./... | grep -v http/builtin) 2>&1 | grep -E "^(FAIL|---)" | head -5)
+PT=$(go build -o /tmp/pg-verify-$ID . && timeout 300 /tmp/pg-verify-$ID test tests </dev/null >/dev/null 2>&1; echo $?); rm -f /tmp/pg-verify-$ID
+[ "$PT" = "0" ] || TESTS="$TESTS pangaea-test-exit=$PT"
 [ -z "$TESTS" ] && TESTS=pass
 rundemo > "$OUT/demo.with.txt"
 git checkout -q -- . ; git clean -fdq -e out
 rundemo > "$OUT/demo.without.txt"
 cp "$P" "$OUT/patch.diff"
-cp out/demo$N.* "$OUT/" 2>/dev/null
+cp -r out/demo$N* "$OUT/" 2>/dev/null
+[ -f out/astdump.go ] && cp out/astdump.go "$OUT/"
 DISCR=no; cmp -s "$OUT/demo.with.txt" "$OUT/demo.without.txt" || DISCR=yes
-echo "== $ID-$N build=$BUILD tests=$TESTS demo-discriminates=$DISCR"
+echo "== $ID-${SN:-$N} build=$BUILD tests=$TESTS demo-discriminates=$DISCR"
 echo "   with:    $(tail -3 "$OUT/demo.with.txt" | tr '\n' '|' | cut -c1-200)"
 echo "   without: $(tail -3 "$OUT/demo.without.txt" | tr '\n' '|' | cut -c1-200)"
 cd /verif
+[ -n "${NOTRY:-}" ] && exit 0
 tools/tryseed.sh "$OUT/patch.diff" $CHECKS | tee "$OUT/checks.txt" | sed 's/^/   /'
